@@ -493,6 +493,12 @@ func (f *frame) addrOf(v ssa.Value, st *State) Addr {
 	t := f.val(v, st)
 	el := v.Type().Underlying().(*types.Pointer).Elem()
 	srt := f.e.sortOf(el)
+	if at, ok := el.Underlying().(*types.Array); ok {
+		// a whole array behind a pointer lives where IndexAddr addresses its elements: E[ref]
+		if h, hs := f.elemHeap(at.Elem()); h != "" && hs == "(Array Int "+srt+")" {
+			return primAddr{h, hs, t.S}
+		}
+	}
 	return primAddr{"P_" + sanitize(srt), "(Array Int " + srt + ")", t.S}
 }
 
@@ -836,7 +842,7 @@ func (f *frame) havocChanged(st *State, changed []string) {
 	pre := st.clone()
 	for _, name := range changed {
 		if name == "W" {
-			w0 := e.H(st, "W", "Int")
+			w0 := e.H(pre, "W", "Int") // the watermark before any of the havocs below (a class havoc renames W too)
 			e.havoc(st, "W")
 			e.assume(implies(st.cond, "(>= "+e.H(st, "W", "Int")+" "+w0+")"))
 			continue
@@ -847,6 +853,8 @@ func (f *frame) havocChanged(st *State, changed []string) {
 			e.havocClass(st, 0)
 			e.keepOwn = false
 			e.preserving = false
+			// the allocation watermark only grows
+			e.assume(implies(st.cond, "(>= "+e.H(st, "W", "Int")+" "+e.H(pre, "W", "Int")+")"))
 			if !f.npBump {
 				// every class-0 havoc in the body preserved the objects owned by the root package
 				f.preserve(pre, st, f.explicitW)
@@ -1045,7 +1053,22 @@ func (f *frame) localsAt(b *ssa.BasicBlock, env *specEnv) {
 		}
 		for _, ins := range blk.Instrs {
 			dr, ok := ins.(*ssa.DebugRef)
-			if !ok || dr.IsAddr {
+			if !ok {
+				continue
+			}
+			if dr.IsAddr {
+				// an address-taken local array (var Q [N]T): the name denotes the array; specs index it as Q[k]
+				if al, isAl := dr.X.(*ssa.Alloc); isAl {
+					if id, isId := dr.Expr.(*ast.Ident); isId {
+						if _, isArr := al.Type().Underlying().(*types.Pointer).Elem().Underlying().(*types.Array); isArr {
+							if t, ok := f.vals[al]; ok {
+								if _, exists := env.vars[id.Name]; !exists {
+									env.vars[id.Name] = t
+								}
+							}
+						}
+					}
+				}
 				continue
 			}
 			id, ok := dr.Expr.(*ast.Ident)
